@@ -12,3 +12,4 @@ open Just.Props.C19
 #print axioms fallback_every_level_gated
 #print axioms fallback_parent_refused
 #print axioms fallback_stable_never_refused
+#print axioms gated_features_are_documented
